@@ -220,3 +220,56 @@ Proof.
     destruct (IH b1 acc1 b' acc' Wl N1 H) as (N2 & S2 & C2 & E2 & B2 & I2).
     repeat split; try lia. exact N2.
 Qed.
+
+(* ---------- block-shaped cases of the correspondence check ---------- *)
+Lemma txn_hyps_ok_sound t : txn_hyps_ok t = true -> wf_txn t.
+Proof.
+  unfold txn_hyps_ok. intros H.
+  repeat (apply andb_true_iff in H; destruct H as [H ?]).
+  repeat match goal with
+         | X : (_ <=? _) = true |- _ => apply Z.leb_le in X
+         end.
+  unfold wf_txn, wf_tx, wf_opq, wf_msg. repeat split; try assumption.
+  - intros X. match goal with Y : (if m_isETX _ then _ else _) = true |- _ => rewrite X in Y; now apply Z.eqb_eq in Y end.
+  - match goal with Y : Bool.eqb _ _ = true |- _ => now apply Bool.eqb_prop in Y end.
+Qed.
+
+Lemma nonneg_of_forallb (b : bmap) : forallb (fun p => 0 <=? snd p) b = true -> nonneg b.
+Proof.
+  intros H a. induction b as [|[k v] r IH]; cbn [bget]; [lia|].
+  cbn [forallb snd] in H. apply andb_true_iff in H. destruct H as [Hv Hr].
+  destruct (N.eqb a k); [now apply Z.leb_le in Hv|exact (IH Hr)].
+Qed.
+
+Lemma blk_hyps_ok_sound c : blk_hyps_ok c = true -> Forall wf_txn (c_blk c) /\ nonneg (c_blkpre c).
+Proof.
+  unfold blk_hyps_ok. intros H. apply andb_true_iff in H. destruct H as [HT HB]. split.
+  - apply Forall_forall. intros t HI. rewrite forallb_forall in HT. exact (txn_hyps_ok_sound t (HT t HI)).
+  - exact (nonneg_of_forallb _ HB).
+Qed.
+
+(* what the check establishes for every observed block once its boolean is true: the model's run over the
+   block conserves, and (blk_ok) that run ends at the balances the real StateDB showed *)
+Theorem checked_block_conserves c b' acc' :
+  blk_hyps_ok c = true -> run_block (c_blk c) (c_blkpre c) tot0 = (b', acc') ->
+  nonneg b'
+  /\ bsum b' = bsum (c_blkpre c) - tot_charge acc' - tot_etx acc' - tot_burn acc' + tot_rent acc' + tot_inbound acc'
+  /\ bsum b' <= bsum (c_blkpre c) - tot_charge acc' - tot_etx acc' + tot_rent acc' + tot_inbound acc'
+  /\ 0 <= tot_charge acc' /\ 0 <= tot_etx acc' /\ 0 <= tot_burn acc' /\ 0 <= tot_inbound acc'.
+Proof.
+  intros H R. destruct (blk_hyps_ok_sound c H) as [WF NN].
+  destruct (block_conserves _ _ _ _ _ WF NN R) as (N1 & S & C & E & B & I).
+  cbn [tot0 tot_charge tot_etx tot_burn tot_rent tot_inbound] in *.
+  repeat split; try lia. exact N1.
+Qed.
+
+(* an account that a transaction leaves marked self-destructed holds nothing afterwards, whatever it was
+   sent after its SELFDESTRUCT; the next transaction of the block starts from these balances ([run_tx]:
+   [init (bal s')], nobody marked), so bringing the address back cannot bring the burnt value back *)
+Theorem destroyed_account_restarts_empty e m o top s s' used failed a :
+  apply_tx e m o top s = (s', RDone used failed) -> mem a (sui s') = true -> bget a (bal s') = 0.
+Proof.
+  unfold apply_tx. destruct (transition e m o top s) as [s1 r] eqn:T. intros H.
+  inversion H; subst. cbn [is_invalid]. destruct (finalise_fields s1) as (S & _ & _).
+  rewrite S. apply finalise_deletes.
+Qed.
